@@ -603,6 +603,8 @@ impl BufferedDatabaseWriter {
     }
 
     fn commit(conn: &Connection) -> std::result::Result<(), rusqlite::Error> {
+        #[cfg(feature = "verif")]
+        crate::verif_hooks::fault("commit.before")?;
         conn.execute("COMMIT", [])?;
         Ok(())
     }
